@@ -10,6 +10,7 @@ package main
 
 import (
 	"fmt"
+	"reflect"
 
 	"github.com/M2MGateway/go-smpp/pdu"
 )
@@ -166,4 +167,56 @@ func c11Ignored(r *Run) {
 	}
 	r.Sample(map[string]interface{}{"op": "combine", "what": "run of ignored segments on one combiner", "shape": "n = 17 … 5000 segments with sequence number 0 or above the total (totals: 255 / i mod 256 / scattered), new key each or one key, well-formed messages before and after",
 		"required": "no panic; the well-formed messages are delivered"})
+}
+
+// ---------------------------------------------------------------- getHeader through reflect
+type shapeUnexportedFirst struct {
+	n      int
+	Header pdu.Header
+}
+type shapeExportedFirst struct {
+	N      int
+	Header pdu.Header
+}
+type shapeNoHeader struct{ A, B int }
+
+// c11Shapes: ReadSequence and ReadCommandStatus on every registered PDU type as ReadPDU returns it (a
+// pointer: must return) and on what a caller could pass by mistake (the struct by value, a typed nil
+// pointer, nil, a scalar …: the model says which of these panic; these are not C11 failures).
+func c11Shapes(r *Run, ts []pduType) {
+	obsClass := func(x interface{}) int {
+		if pk, _ := guard(func() { _ = pdu.ReadSequence(x); _ = pdu.ReadCommandStatus(x) }); pk {
+			return 2
+		}
+		return 0
+	}
+	for _, t := range ts {
+		p := reflect.New(t.T).Interface()
+		kinds := coqInts(fieldKinds(t.T))
+		cls := obsClass(p)
+		r.Count("shape/ptr/"+t.Name, true, "ReadSequence by reflect/pointer to a registered PDU")
+		if cls != 0 {
+			r.Fail("accessor-panic/ReadSequence/"+t.Name, "ReadSequence / ReadCommandStatus panicked on a pointer to a registered PDU type (what ReadPDU returns)",
+				fmt.Sprintf("shape pointer %s", t.Name), "panic", "returns the header's sequence number and status")
+		}
+		r.Case("getHeader on *"+t.Name, fmt.Sprintf("chk_get_header 0 %s %d", kinds, cls))
+		// not what ReadPDU returns — recorded against the model only
+		r.Case("getHeader on "+t.Name+" by value", fmt.Sprintf("chk_get_header 2 %s %d", kinds, obsClass(reflect.New(t.T).Elem().Interface())))
+		r.Case("getHeader on nil *"+t.Name, fmt.Sprintf("chk_get_header 1 [] %d", obsClass(reflect.Zero(reflect.PtrTo(t.T)).Interface())))
+	}
+	n := 5
+	for _, x := range []struct {
+		what string
+		v    interface{}
+		tag  int
+		ks   []int
+	}{
+		{"nil interface", nil, 3, nil}, {"int", 7, 3, nil}, {"string", "x", 3, nil}, {"map", map[string]int{}, 3, nil}, {"*int", &n, 3, nil},
+		{"struct{} by value", struct{}{}, 2, []int{}}, {"*struct{}", &struct{}{}, 0, []int{}},
+		{"*struct{unexported; Header}", &shapeUnexportedFirst{}, 0, []int{2, 0}}, {"*struct{Exported; Header}", &shapeExportedFirst{}, 0, []int{1, 0}},
+		{"*struct without Header", &shapeNoHeader{}, 0, []int{1, 1}}, {"struct without Header by value", shapeNoHeader{}, 2, []int{1, 1}},
+	} {
+		r.Count("shape/other/"+x.what, true, "ReadSequence by reflect/other arguments (model only)")
+		r.Case("getHeader on "+x.what, fmt.Sprintf("chk_get_header %d %s %d", x.tag, coqInts(x.ks), obsClass(x.v)))
+	}
 }
